@@ -40,6 +40,9 @@ SCENARIOS = [
     ("seeded", ["--fixed-size", "4B", "--compression", "none"], b"AAAABBBBCCCCDDDD", None, b"XXXXCCCCYYYYAAAA", []),
     ("in-place-moves", ["--fixed-size", "4B", "--compression", "none"], b"AAAABBBBCCCCDDDD", b"CCCCAAAAXXXXBBBBZZZZ", None, ["--seed-output"]),
     ("in-place-swap", ["--fixed-size", "4B", "--compression", "none"], b"AAAABBBBAAAACCCC", b"BBBBAAAA", None, ["--seed-output"]),
+    # nothing to fetch: the last output write is a re-order move
+    ("in-place-permutation-only", ["--fixed-size", "4B", "--compression", "none"], b"AAAABBBBCCCCDDDD", b"CCCCAAAADDDDBBBB", None, ["--seed-output"]),
+    ("in-place-rotation-only", ["--fixed-size", "4B", "--compression", "none"], b"AAAABBBBCCCC", b"BBBBCCCCAAAA", None, ["--seed-output"]),
     ("force-over-existing", ["--fixed-size", "4B", "--compression", "none"], b"AAAABBBBCCCC", b"0123456789abcdefghij", None, ["-f"]),
     ("brotli-16", ["--fixed-size", "16B", "--compression", "brotli"], b"x" * 16 + b"y" * 16 + bytes(range(16)) + b"x" * 16, b"y" * 16 + b"q" * 16, None, ["--seed-output"]),
 ]
@@ -227,7 +230,7 @@ def run(ctx):
     cov["rule"] = ("real binary under LD_PRELOAD: every write index k of the uninterrupted run x {EIO, ENOSPC, short then EIO} must "
                    "give exit != 0; every k x tear offsets {0,1,len/2,len-1,len} (thorough: every offset) kills the process mid-write and "
                    "the in-place re-run must restore the source; scenarios plain / seeded / in-place with moves / in-place swap / "
-                   "forced over existing / brotli, on a regular file and a loop block device; non-trivial = distinct injected cases")
+                   "in-place permutation / rotation only (the last write is a move) / forced over existing / brotli, on a regular file and a loop block device; non-trivial = distinct injected cases")
     return {"property_id": ctx["pid"], "level": "fault_enumeration", "coverage": cov,
             "assumptions": ["the shim intercepts write(2) through the PLT; bita's output writes all go through std::fs::File::write on the blocking pool"],
             "violation_classes": list(viol.values()), "wall_s": time.time() - t0}
